@@ -6,7 +6,11 @@ op       = ['i', x, y] | ['i', k, x, y] | ['m'] | ['r']
 A step observation is a flat list of integers (harness/ds_trrel/src/*.rs, TrRelModel.observe_*):
   insertion : [contains(total), contains(delta), result of insert_if_not_present or 2 when the head update skipped it]
   merge / r : observations of delta then of total; per version, per view, (bit mask of the tuples served,
-              number of tuples served) for index_get over every key of the domain and for iter_all, + is_empty."""
+              number of tuples served) for index_get over every key of the domain and for iter_all, + is_empty.
+Families: exhaustive small sequences, random histories (2-3 keys, 3-5 node values; pause / resume, SCC boundaries),
+and "heavy" (heavy_history: 4-32 keys sharing 1-3 edges over 2-3 node values; masks are 128 bits wide, fingerprints
+Byods/TrRelFpWide.v).  Law `is_empty is definite`: a view that answers is_empty() = true has nothing to serve
+according to the explicit closure (generated code skips whole rules on that answer)."""
 import concurrent.futures as cf
 import itertools
 import os
@@ -16,7 +20,7 @@ from . import lib
 
 M63 = (1 << 63) - 1
 PRELUDE = ("From Coq Require Import List ZArith.\nFrom AV Require Import Byods.TrRelModel.\nFrom AV Require Import Byods.TrRelFp.\n"
-           "Import ListNotations.\nOpen Scope Z_scope.\n")
+           "From AV Require Import Byods.TrRelFpWide.\nImport ListNotations.\nOpen Scope Z_scope.\n")
 
 # view layout of one version: (name, [readings], has is_empty slot)
 BIN_VIEWS = [("full", ["contains", "get", "iter"]), ("none", ["get", "iter"]), ("i0", ["get", "iter"]), ("i1", ["get", "iter"])]
@@ -108,7 +112,7 @@ def coq_ops(c):
 
 
 def coq_batch(suite, keys, dom, cases, mode):
-    wrap = {"hist": "fp_hist ", "steps": "fp_steps ", "full": ""}[mode]
+    wrap = {"hist": "fpw_hist ", "steps": "fpw_steps ", "full": ""}[mode]
     hs = "[" + "; ".join(coq_ops(c) for c in cases) + "]"
     if suite == "bin":
         return "map (fun h => %s(run_bin %d%%nat h)) %s" % (wrap, dom, hs)
@@ -119,14 +123,14 @@ _FP_BUILT = [False]
 
 
 def ensure_fp_built():
-    """Byods/TrRelFp.v (fingerprints, tie only) is not in the closure of Props/C11.v: build it before evaluating cases"""
+    """Byods/TrRelFpWide.v (fingerprints, tie only; imports TrRelFp.v) is not in the closure of Props/C11.v: build it before evaluating cases"""
     if _FP_BUILT[0]:
         return
     with lib.Lock("coq"):
         lib.coq_makefile()
-        rc, out = lib.sh(["timeout", "900", "make", "Byods/TrRelFp.vo"], cwd=lib.COQ, timeout=960)
+        rc, out = lib.sh(["timeout", "900", "make", "Byods/TrRelFpWide.vo"], cwd=lib.COQ, timeout=960)
     if rc:
-        raise lib.Infra("Byods/TrRelFp.v does not build:\n" + out[-2000:])
+        raise lib.Infra("Byods/TrRelFpWide.v does not build:\n" + out[-2000:])
     _FP_BUILT[0] = True
 
 
@@ -157,9 +161,14 @@ def run_model(cases, mode="hist", tag="c11ds"):
 
 
 def fp(nums):
+    """TrRelFpWide.fpw: a number >= 2^63 (bit mask over more than 63 cells) is folded as its three 63-bit limbs"""
     h = 7
     for v in nums:
-        h = (h * 131105 + (v & M63) + 1) & M63
+        if v <= M63:
+            h = (h * 131105 + v + 1) & M63
+        else:
+            for limb in (v & M63, (v >> 63) & M63, v >> 126):
+                h = (h * 131105 + limb + 1) & M63
     return h
 
 
@@ -357,6 +366,11 @@ def spec_check(c, steps):
         # P3: nothing is readable from total that was not served one round earlier
         if op[0] == "m" and not T <= prev_union:
             add("P3 total only grows by the previous delta", "total", "full", "iter", [], T - prev_union)
+        # P3b: and nothing that was served one round earlier is lost from total (restart: total is empty, delta = the stored relation)
+        if op[0] == "m" and not prev_union <= T:
+            add("P3b total keeps what total and delta served one round earlier", "total", "full", "iter", prev_union - T, [])
+        if op[0] == "r" and (T or D != tread):
+            add("P3b SCC boundary: total is empty, delta serves the stored relation", "delta", "full", "iter", tread - D, (D - tread) | T)
         # P2: total + delta = closure of everything inserted
         if (T | D) != C:
             add("P2 total+delta = closure(inserted)", "total+delta", "full", "iter", C - (T | D), (T | D) - C)
@@ -382,9 +396,21 @@ def spec_check(c, steps):
                     fails.append(dict(step=i, law="len_estimate does not panic", version=version, view=view, reading="len_estimate", missing=[], extra=[],
                                       klass=F11 if (view == "i12" and empty_map) else None,
                                       what="after step %d: len_estimate() of %s view %s panics (%s version)" % (i, version, view, "empty" if empty_map else "non-empty")))
-                if o[version][view]["is_empty"] and any(o[version][view][r][0] for r in readings):
-                    fails.append(dict(step=i, law="is_empty is definite", version=version, view=view, reading="is_empty", missing=[], extra=[], klass=None,
-                                      what="after step %d: %s view %s reports is_empty but serves tuples" % (i, version, view)))
+                # RelIndexRead::is_empty = "is the relation DEFINITELY empty": generated code skips a whole rule when any
+                # body relation answers true (compile_mir_rule: any_rel_empty).  So: is_empty() => the view has nothing
+                # to serve.  What it has to serve is given by the explicit closure: a total view the total (= what was
+                # served one round earlier, P3/P3b), a delta view at least closure(inserted) - total (P4).
+                if o[version][view]["is_empty"]:
+                    required = content if version == "total" else (C - T)
+                    served = set()
+                    for r in readings:
+                        served |= set(tuples_of(c, o[version][view][r][0]))
+                    nserved = sum(o[version][view][r][1] for r in readings)
+                    if required or served or nserved:
+                        fails.append(dict(step=i, law="is_empty is definite", version=version, view=view, reading="is_empty",
+                                          missing=sorted(required), extra=[], klass=None,
+                                          what="after step %d: %s view %s answers is_empty() = true, but the explicit closure requires it to serve %d tuples %s (it serves %d: %s)" % (
+                                              i, version, view, len(required), sorted(required)[:4], len(served), sorted(served)[:4])))
         tread, dread = T, D
         ins_round, new_round = [], set()
         last = o
@@ -459,6 +485,85 @@ def rand_history(rng, suite, keys, dom):
     return dict(suite=suite, keys=keys if suite != "bin" else 1, dom=dom, ops=ops, src="random/" + shape)
 
 
+def heavy_history(rng, suite):
+    """family "heavy": MANY keys sharing FEW node values.  Every key draws its edges from one small pattern (1-3 edges
+    over 2 or 3 node values), so the per-key map is large while the reverse maps column value -> keys have 1-3
+    entries: the regime where size heuristics over the keyed views (len_estimate of the ternary [1,2] view =
+    |column-1 values| * |column-2 values| / floor(sqrt(|keys|)), rounded) are furthest from the truth.  Numbers of keys
+    sit on both sides of the squares 4, 9, 16, 25.  The harness folds served tuples into 128-bit masks:
+    keys * dom^2 <= 128."""
+    dom = rng.choice([2, 2, 2, 3])
+    keys = rng.choice([4, 5, 9, 10, 16, 17, 24, 25, 26, 30, 32]) if dom == 2 else rng.choice([4, 5, 9, 10, 14])
+    vs = list(range(dom))
+    shape = rng.choice(["edge", "two_cycle", "pattern", "pattern", "self"])
+    if shape == "edge":
+        a, b = rng.sample(vs, 2)
+        pat = [(a, b)]
+    elif shape == "two_cycle":
+        a, b = rng.sample(vs, 2)
+        pat = [(a, b), (b, a)]
+    elif shape == "self":
+        a = rng.choice(vs)
+        pat = [(a, a)] + ([(a, rng.choice(vs))] if rng.random() < 0.5 else [])
+    else:
+        pat = sorted({(rng.choice(vs), rng.choice(vs)) for _ in range(rng.randint(1, 3))})
+    nrounds = rng.randint(1, 3)
+    ops = []
+    for r in range(nrounds):
+        u = rng.random()
+        ks = list(range(keys)) if u < 0.5 else rng.sample(range(keys), rng.randint(1, keys))
+        rng.shuffle(ks)
+        # one edge of the pattern per round (the pattern arrives over several iterations), or the whole pattern at once
+        es = pat if (nrounds == 1 or rng.random() < 0.4) else [pat[r % len(pat)]]
+        for k in ks:
+            for (a, b) in es:
+                if rng.random() < 0.9:
+                    ops.append(["i", k, a, b])
+        ops.append(["m"])
+        if rng.random() < 0.3:
+            ops.append(["m"])
+        if rng.random() < 0.15:
+            if ops[-2:] != [["m"], ["m"]]:
+                ops.append(["m"])
+            ops.append(["r"])
+    ops += [["m"], ["m"]]
+    return dict(suite=suite, keys=keys, dom=dom, ops=ops, src="heavy/" + shape)
+
+
+def protocol_ok(c):
+    """an SCC ends only after a merge with empty `new`: every 'r' directly follows two merges (or starts the history)"""
+    ops = c["ops"]
+    for j, o in enumerate(ops):
+        if o[0] == "r" and j > 0 and not (ops[j - 1][0] == "m" and (j == 1 or ops[j - 2][0] in ("m", "r"))):
+            return False
+    return True
+
+
+def shrink_batch(c, fails_batch):
+    """delta debugging with batched evaluation: fails_batch(candidates) -> [bool]; chunks of operations are removed
+    (halves, quarters, ..., single operations) while the failure persists; candidates that leave the head-update /
+    SCC protocol are not considered"""
+    ops = list(c["ops"])
+    n = 2
+    while len(ops) > 1:
+        size = max(1, len(ops) // n)
+        cands = []
+        for j in range(0, len(ops), size):
+            cand = dict(c, ops=ops[:j] + ops[j + size:])
+            if cand["ops"] and protocol_ok(cand):
+                cands.append(cand)
+        res = fails_batch(cands) if cands else []
+        hit = next((cd for cd, f in zip(cands, res) if f), None)
+        if hit is not None:
+            ops = hit["ops"]
+            n = max(n - 1, 2)
+        elif size == 1:
+            break
+        else:
+            n = min(n * 2, len(ops))
+    return dict(c, ops=ops)
+
+
 def exhaustive_bin(dom, nedges):
     """every sequence of nedges edges over dom, with every placement of merges between them"""
     cells = [(a, b) for a in range(dom) for b in range(dom)]
@@ -511,6 +616,9 @@ def gen_cases(tier, seed, prop="C11"):
         cases.append(rand_history(rng, "ter", rng.choice([2, 3]), rng.choice([3, 4])))
     for _ in range(nm):
         cases.append(rand_history(rng, "tern", rng.choice([2, 3]), rng.choice([3, 4])))
+    rh = lib.rng_for(seed, prop, "ds-heavy")
+    for j in range(300 if quick else 3000):
+        cases.append(heavy_history(rh, "tern" if j % 5 == 4 else "ter"))
     return cases
 
 
